@@ -54,7 +54,7 @@ def gen_scenario(rng, cfg):
                           "stages": outer, "probe": False})
         elif cfg.get("builtins") and rng.chance(25):
             # an output-producing builtin running inside the shell process, redirected
-            redirs = [r for r in gen_redirs(rng, allow_bad=False, allow_in=False) if r["k"] in ("out", "dup")]
+            redirs = [r for r in gen_redirs(rng, allow_bad=rng.chance(30), allow_in=False) if r["k"] in ("out", "dup")]
             b = rng.choice(["alias", "cd /nonexistent_zz"])
             st = {"kind": "builtin", "text": b, "redirs": redirs}
             lines.append({"stages": [st], "probe": False})
@@ -171,8 +171,23 @@ class C04Runner(LineRunner):
             else:
                 # the builtin ran inside the shell: same left-to-right model as for a program
                 self.wire_stage(st)
-                self.model_write(st, known[1], known[0])
-                self.sim.probe("builtin_output_checked_against_redirection_model")
+                outp = os.path.join(self.sim.dir, "shell.out" if known[0] == 1 else "shell.err")
+                data = open(outp, "rb").read() if os.path.exists(outp) else b""
+                grown = data[self.learn_pos.get(os.path.basename(outp), 0):]
+                for name in ("shell.out", "shell.err"):
+                    pp = os.path.join(self.sim.dir, name)
+                    self.learn_pos[name] = os.path.getsize(pp) if os.path.exists(pp) else 0
+                if getattr(st, "unopenable", None):
+                    if status == 0:
+                        raise Violation("status_zero_on_unopenable", "builtin `%s` whose target %s cannot be opened reported "
+                                        "status 0" % (text, st.unopenable))
+                    if known[0] == 1 and known[1] in grown:
+                        raise Violation("ran_despite_unopenable", "builtin `%s` ran (its output went to the shell's stdout) "
+                                        "although its target %s cannot be opened" % (text, st.unopenable))
+                    self.sim.probe("builtin_with_unopenable_target_not_run")
+                else:
+                    self.model_write(st, known[1], known[0])
+                    self.sim.probe("builtin_output_checked_against_redirection_model")
                 self.check_files()
             self.sim.probe("builtin_redirected_inside_shell_process")
             return
